@@ -11,6 +11,7 @@
 #include "../sim/harness.h"
 #include "../sim/alloc_seam.h"
 #include <cstring>
+#include <cmath>
 #include <symengine/parser.h>
 #include <symengine/parser/parser.h>
 #include <symengine/parser/sbml/sbml_parser.h>
@@ -85,6 +86,13 @@ struct G {
             case 7:
                 return std::to_string(10000 + g.below(89999));
             case 8: // long integer: exceeds long, goes through integer_class
+                if (g.chance(1, 2)) { // the word-size boundaries
+                    static const char *edge[] = {"18446744073709551615", "18446744073709551616",
+                                                 "9223372036854775807", "9223372036854775808",
+                                                 "10000000000000000000", "4294967296", "2147483648",
+                                                 "99999999999999999999", "1e999", "1e-999"};
+                    return edge[g.below(10)];
+                }
                 return "123456789012345678901234567890" + std::to_string(g.below(10));
             default:
                 return std::to_string(g.below(13));
@@ -218,6 +226,10 @@ struct G {
     // arguments of number-theoretic / special functions stay small
     std::string small_arg()
     {
+        if (g.chance(1, 12)) { // doubles that are infinite, zero or NaN-producing once parsed
+            static const char *odd[] = {"1e999", "-1e999", "1e-999", "1.5e400", "0.0", "-0.0", "1e308*10"};
+            return odd[g.below(7)];
+        }
         if (g.chance(1, 2))
             return std::to_string(g.below(30));
         if (g.chance(1, 2))
@@ -245,6 +257,28 @@ struct G {
                 default:
                     return "!" + boolean(depth - 1);
             }
+        }
+        if (g.chance(1, 12)) {
+            // an operand that is not a boolean at all: a number, a negative
+            // long integer, a Piecewise - the parser has to refuse it cleanly
+            static const char *ops1[] = {"~", "Not"};
+            std::string bad;
+            switch (g.below(4)) {
+                case 0:
+                    bad = "-" + number();
+                    break;
+                case 1:
+                    bad = "Piecewise((" + expr(1) + ", " + boolean(0) + "), (" + atom() + ", True))";
+                    break;
+                case 2:
+                    bad = "(-18446744073709551615)";
+                    break;
+                default:
+                    bad = atom();
+            }
+            if (g.chance(1, 2))
+                return std::string(ops1[g.below(2)]) + "(" + bad + ")";
+            return boolean(depth - 1) + (g.chance(1, 2) ? " & " : " | ") + bad;
         }
         switch (g.below(7)) {
             case 6: // '^' between booleans: Xor when convert_xor is false, a power otherwise
@@ -508,21 +542,38 @@ bool cheap(const std::string &s0)
                           "factorial", "levi_civita", "dirichlet_eta", "lambertw"})
         for (size_t p = s.find(w); p != std::string::npos; p = s.find(w, p + 1))
             special++;
-    if (special && (maxrun > 4 || npow > 0))
+    // magnitude of the numeric literals: what matters for cost is the value,
+    // not the spelling. A literal that overflows to infinity (1e999) or
+    // underflows to zero costs nothing; a finite one above 9999 may.
+    bool big_literal = false, exp_literal_big = false;
+    for (size_t i = 0; i < s.size();) {
+        if (isdigit((unsigned char)s[i]) || (s[i] == '.' && i + 1 < s.size() && isdigit((unsigned char)s[i + 1]))) {
+            char *end = nullptr;
+            double v = strtod(s.c_str() + i, &end);
+            size_t len = (size_t)(end - (s.c_str() + i));
+            if (len == 0)
+                len = 1;
+            bool has_exp = false;
+            for (size_t k = i; k < i + len; k++)
+                if (s[k] == 'e')
+                    has_exp = true;
+            if (std::isfinite(v) && std::fabs(v) > 9999.0) {
+                big_literal = true;
+                if (has_exp)
+                    exp_literal_big = true;
+            }
+            i += len;
+        } else
+            i++;
+    }
+    if (special && (big_literal || npow > 0))
         return false;
     // nested or repeated ones (gamma(gamma(18)) = factorial(17! - 1),
     // primepi(gamma(20)), ...) reach astronomically large arguments from
     // two-digit literals
     if (special > 1)
         return false;
-    // a floating-point literal with an exponent hides its magnitude
-    if (special)
-        for (size_t i = 1; i + 1 < s.size(); i++)
-            if ((s[i] == 'e' || s[i] == 'E')
-                && (isdigit((unsigned char)s[i - 1]) || s[i - 1] == '.')
-                && (isdigit((unsigned char)s[i + 1]) || s[i + 1] == '+'
-                    || s[i + 1] == '-'))
-                return false;
+    (void)exp_literal_big;
     // zeta, dirichlet_eta and polygamma of integers compute Bernoulli numbers
     // with the built-in quadratic algorithm (no FLINT/Arb here): B_1410 takes
     // 4 s, B_2526 half a minute on the shipped build
